@@ -93,6 +93,24 @@ def _const_false(b):
     return z3.is_false(b)
 
 
+def _has_lambda_or_ite(t):
+    seen = set()
+    stack = [t]
+    while stack:
+        x = stack.pop()
+        i = x.get_id()
+        if i in seen:
+            continue
+        seen.add(i)
+        if z3.is_quantifier(x):
+            return True          # lambda (or a quantified sub-term)
+        if z3.is_app(x):
+            if x.decl().kind() == z3.Z3_OP_ITE:
+                return True
+            stack.extend(x.children())
+    return False
+
+
 class Executor(object):
     def __init__(self, module, fn_ast, qualname, case, natives, externals_resolver=None,
                  feasibility_ms=300):
@@ -231,6 +249,8 @@ class Executor(object):
             s.add(a)
         for a in strconst_axioms():
             s.add(a)
+        for a in mem_axioms():
+            s.add(a)
         if extra is not None:
             s.add(extra)
         r = s.check()
@@ -308,6 +328,8 @@ class Executor(object):
             return v
         if not z3.is_expr(v.t) or z3.is_const(v.t):
             return v
+        if not isinstance(v.ty, (IntT, FloatT, BoolT)) and not _has_lambda_or_ite(v.t):
+            return v              # constructor / accessor / store terms are fine inside patterns
         if isinstance(v.ty, (IntT, FloatT, BoolT)):
             if not scalars or FP.is_num(z3.simplify(v.t)) or z3.is_true(v.t) or z3.is_false(v.t):
                 return v
